@@ -141,6 +141,7 @@ func init() {
 		externals["sync/atomic.Load"+k] = func(g *G, fr *frame, a []value) value {
 			p := a[0].(*value)
 			g.atomicOp(p, "load")
+			g.observe(p, *p)
 			return *p
 		}
 		externals["sync/atomic.Store"+k] = func(g *G, fr *frame, a []value) value {
